@@ -103,20 +103,22 @@ template <class T> static std::vector<long> dense16() {
 }
 template <class T> static void exhaustive_pairs() {
   long lo = std::numeric_limits<T>::min(), hi = std::numeric_limits<T>::max();
+  long long npairs = 0;
   if (sizeof(T) == 1) {
     for (long a = lo; a <= hi; ++a) {
       if (!S.mine(a - lo)) continue;
       for (long b = lo; b <= hi; ++b) all_ops<T>((T)a, (T)b);
+      npairs += hi - lo + 1;
     }
   } else {
     std::vector<long> D = dense16<T>(); std::vector<char> inD(hi - lo + 1, 0); for (long v : D) inD[v - lo] = 1;
     for (long a = lo; a <= hi; ++a) {
       if (!S.mine(a - lo)) continue;
-      for (long b : D) { all_ops<T>((T)a, (T)b); if (!inD[a - lo]) all_ops<T>((T)b, (T)a); }
+      for (long b : D) { all_ops<T>((T)a, (T)b); ++npairs; if (!inD[a - lo]) { all_ops<T>((T)b, (T)a); ++npairs; } }
     }
     R.stats[std::string("dense16_values_") + tname<T>()] = (long long)D.size();
   }
-  R.stats[std::string("pairs_exhaustive_") + tname<T>()] += 0;
+  R.stats[std::string("pairs_exhaustive_") + tname<T>()] += npairs;
 }
 
 // boundary lattice of a wide type: min, min+1, +-2^k-1, +-2^k, +-2^k+1, -2..2, max-1, max,
